@@ -54,8 +54,8 @@ Qed.
 (* ---------- C06 ---------- *)
 Lemma p_enc_fail_iff tl p :
   NoDup (keys (p_str p)) ->
-  ((exists e, encode tl p = Err e) <-> L_max < info_size (p_int p) (p_str p) mod two32) /\
-  ((exists b, encode tl p = Ok b) <-> info_size (p_int p) (p_str p) mod two32 <= L_max).
+  ((exists e, encode tl p = Err e) <-> L_max < info_size (p_int p) (p_str p)) /\
+  ((exists b, encode tl p = Ok b) <-> info_size (p_int p) (p_str p) <= L_max).
 Proof. apply enc_fail_iff. Qed.
 
 (* without the 32-bit conversion: a header info below 4 GiB *)
@@ -63,6 +63,5 @@ Lemma p_enc_fail_iff_nowrap tl p :
   NoDup (keys (p_str p)) -> info_size (p_int p) (p_str p) < two32 ->
   ((exists e, encode tl p = Err e) <-> L_max < info_size (p_int p) (p_str p)).
 Proof.
-  intros Hnd Hnw. destruct (enc_fail_iff tl p Hnd) as [H _]. unfold u32 in H.
-  rewrite N.mod_small in H by exact Hnw. exact H.
+  intros Hnd Hnw. destruct (enc_fail_iff tl p Hnd) as [H _]. exact H.
 Qed.
